@@ -62,7 +62,7 @@ pub fn run(ctx: &Ctx) -> i32 {
         return replay(ctx, p);
     }
     let obs = C03Obs { checked: AtomicU64::new(0), listings: AtomicU64::new(0), samples: Mutex::new(vec![]) };
-    let names: Vec<&str> = ctx.tier.pick(vec!["H-2", "Ap-2", "Ad-3", "D-3", "C-2", "R-2"], vec!["H-3", "Ap-3", "Ad-3", "D-3", "C-3", "B-2", "R-3"]);
+    let names: Vec<&str> = ctx.tier.pick(vec!["H-2", "Ap-2", "Ad-3", "M-5", "D-3", "C-2", "R-2"], vec!["H-3", "Ap-3", "Ad-3", "M-8", "D-3", "C-3", "B-2", "R-3"]);
     let mut per_cfg = vec![];
     let (mut states, mut trans) = (0u64, 0u64);
     let mut all_fix = true;
